@@ -227,7 +227,132 @@ def access_records(rng):
     return out
 
 
+class _ClosedRead(Exception):
+    pass
+
+
+class _FakeStream:
+    def __init__(self):
+        self.closed = False
+        self.closes = 0
+
+    def close(self):
+        self.closed = True
+        self.closes += 1
+
+
+def _fake_records(stream, n, fail):
+    i = 0
+    while True:
+        i += 1
+        if stream.closed:
+            raise _ClosedRead()
+        if i == fail:
+            raise IOError('read failed')
+        if i > n:
+            return
+        yield i
+
+
+def _drive(it, ops, item_of, closed_of):
+    """apply the operations to a ClosingIterator; observations in the vocabulary of StreamDef"""
+    obs = []
+    for op in ops:
+        if op == 'next':
+            was_closed = closed_of()
+            try:
+                obs.append(['item', item_of(next(it))])
+            except StopIteration:
+                obs.append(['stop'])
+            except _ClosedRead:
+                obs.append(['closed-error'])
+            except ValueError as e:
+                obs.append(['closed-error'] if was_closed and 'closed' in str(e) else ['error'])
+            except Exception:
+                obs.append(['error'])
+        elif op == 'close':
+            it.close(); obs.append(['ok'])
+        elif op == 'exit':
+            it.__exit__(None, None, None); obs.append(['ok'])
+        else:
+            obs.append(['flag', bool(it.closed)])
+    return obs
+
+
+def stream_records(ctx, tmp):
+    """ClosingIterator over a synthetic stream (every source n <= 3 x failing position x every operation sequence of length <= L), and
+    SequenceFile.parse() over real files (plain, gzip, gzip cut inside the data / inside the trailer, undecodable byte).  For real files the
+    facts about the source (number of records, position of the failing read) come from Biopython + gzip alone, without gambit."""
+    import gzip as gz
+    import io as _io
+    import os
+    from Bio import SeqIO
+    from gambit.seq import SequenceFile
+    from gambit.util.io import ClosingIterator
+    OPS = ['next', 'close', 'exit', 'closed?']
+    L = 4 if ctx.tier == 'quick' else 5
+    seqs = [list(p) for l in range(0, L + 1) for p in itertools.product(OPS, repeat=l)]
+    recs = []
+    for n in range(0, 4):
+        for fail in range(0, n + 2):
+            for ops in seqs:
+                st = _FakeStream()
+                it = ClosingIterator(_fake_records(st, n, fail), st)
+                obs = _drive(it, ops, int, lambda: st.closed)
+                recs.append(dict(op='stream', kind='fake', n=n, fail=fail, after='stops', ops=ops, obs=obs, closed=st.closed))
+    # real files
+    body = lambda n: ''.join(f'>r{i}\n{"ACGT" * (5 + i)}\n' for i in range(1, n + 1)).encode()
+    files = []
+    for n in (0, 1, 3):
+        data = body(n)
+        blob = gz.compress(data)
+        files += [(f'plain{n}.fa', data, None), (f'gz{n}.fa.gz', blob, 'gzip'), (f'cut_trailer{n}.fa.gz', blob[:-5], 'gzip'), (f'cut_data{n}.fa.gz', blob[:max(12, len(blob) * 2 // 3)], 'gzip')]
+    files.append(('undecodable.fa', body(2) + b'>r3\nAC\xff\xfeGT\n', None))
+    big = ''.join(f'>r{i}\n{"ACGT" * 700}\n' for i in range(1, 12)).encode()           # larger than the text layer's chunk: the failure comes after some records
+    bblob = gz.compress(big)
+    files += [('big_cut.fa.gz', bblob[:len(bblob) - 30], 'gzip'), ('big_undecodable.fa', big + b'>r12\nAC\xff\n' + big[:100], None)]
+    for name, blob, comp in files:
+        path = os.path.join(tmp, name)
+        with open(path, 'wb') as f:
+            f.write(blob)
+        # reference facts from the libraries alone
+        fh = _io.TextIOWrapper(gz.GzipFile(path, 'rb')) if comp == 'gzip' else open(path, 'rt')
+        n_ok, fail, eager = 0, 0, False
+        try:
+            try:
+                parser = SeqIO.parse(fh, 'fasta')
+            except Exception:
+                eager = True                  # this Biopython reads ahead when the parser is created: the failure comes at creation
+                raise
+            for rec in parser:
+                n_ok += 1
+        except Exception:
+            fail = n_ok + 1
+        finally:
+            fh.close()
+        if eager:
+            # creation must fail in gambit too, and must not leave the file open
+            fds = lambda: sum(1 for d in os.listdir('/proc/self/fd') if os.path.realpath(f'/proc/self/fd/{d}') == os.path.realpath(path))
+            before = fds()
+            try:
+                SequenceFile(path, 'fasta', comp).parse()
+                raised = False
+            except Exception:
+                raised = True
+            recs.append(dict(op='stream', kind=name + ':creation-fails', n=0, fail=1, after='unspecified', ops=['next', 'exit'], obs=[['error'] if raised else ['stop'], ['ok']],
+                             closed=fds() == before))
+            continue
+        for ops in seqs if n_ok <= 3 else [s for s in seqs if len(s) <= 2] + [['next'] * (n_ok + 2) + ['closed?'], ['next'] * n_ok + ['exit', 'next', 'closed?']]:
+            it = SequenceFile(path, 'fasta', comp).parse()
+            obs = _drive(it, ops, lambda r: int(r.id[1:]), lambda: it.closed)
+            recs.append(dict(op='stream', kind=name, n=n_ok, fail=fail, after='unspecified', ops=ops, obs=obs, closed=bool(it.fobj.closed)))
+            it.close()
+    return recs
+
+
 def run(ctx):
+    ctx.mc('StreamLife', 'MC_StreamLife.cfg', workers=4, note='stream lifecycle: records in order, nothing after close, consumer returns iff the whole file was read, no leak on either path')
+    ctx.mc('StreamLife', 'MC_StreamLife.cfg', expect='ConsumerOutcome', overrides=dict(Faithful='FALSE'), note='negative control: a failing read swallowed as end of stream')
     ctx.mc('Progress', 'MC_Progress.cfg', workers=4, note='progress-meter protocol: bounded, monotone, nothing after close, complete on return')
     ctx.mc('SigList', 'MC_SigList.cfg', workers=8, count=True, note='(a state-machine run so that the evidence carries states/transitions)')
     rng = ctx.rng
@@ -264,6 +389,12 @@ def run(ctx):
                 recs.append(paramgroup_record(list(present), ex, rq))
     recs += progress_records(rng)
     recs += access_records(rng)
+    import shutil
+    tmp = tlc.mktmp('ext-')
+    try:
+        recs += stream_records(ctx, tmp)
+    finally:
+        shutil.rmtree(tmp, ignore_errors=True)
     n, bad = tlc.judge('Judge_EXT', recs)
     ctx.traces += n
     ctx.evaluations += n
@@ -277,7 +408,8 @@ def run(ctx):
     ctx.rule_parts.append('[extensions] Taxon tree operations on every forest <= 4/5 taxa x every subset <= 3; chunk_slices for n<12 x size -1..13; '
                           'jaccard_generic/jaccard_bits on subset pairs; dense<->sparse; label stripping on 20 path shapes; KmerSpec validation and '
                           'JSON/pickle round trip; dump_dmat_csv -> load_dmat_csv with awkward ids; check_params_group truth table; progress-meter event '
-                          'sequences of jaccarddist_matrix / _pairwise / iter_progress / calc_file_signatures (incl. failing runs)')
+                          'sequences of jaccarddist_matrix / _pairwise / iter_progress / calc_file_signatures (incl. failing runs); stream lifecycle: every operation sequence '
+                          'of length <= 4/5 on ClosingIterator over synthetic sources and on SequenceFile.parse() over plain / gzip / truncated / undecodable files')
     for i, why in bad:
         print(f'EXT-DEVIATION component={recs[i]["op"]} why={why} record={core.canon(recs[i])[:300]}', flush=True)
         ctx.notes.append(f'deviation: {recs[i]["op"]} {why} {core.canon(recs[i])[:400]}')
